@@ -563,6 +563,39 @@ def run_shared_refusal(chk, spec):
 		field = "contents" if after[0] != before_a[0] else ("dtype" if after[1] != before_a[1] else "name-or-fingerprint")
 		chk.fail("an assignment that fails for any reason leaves the vector exactly as it was", f"assign/not-atomic/refused-shared-storage/{spec['what']}/{field}-changed", f"{spec!r}: raised {o!r}; before {short(before_a, 160)} after {short(after, 160)}")
 
+class _NoRepr:
+	"""a value that cannot be printed"""
+	def __repr__(self):
+		raise Boom("no repr")
+	__str__ = __repr__
+
+
+def run_unprintable_value(chk, spec):
+	"""an incompatible value is rejected with SerifTypeError - also when the value cannot be printed (an int beyond the int-to-str digit limit, an object
+	whose repr raises): the refusal must not be replaced by the failure of an error message; a compatible one of that kind is simply stored"""
+	vals = list(spec["values"])
+	v = Vector(list(vals))
+	val = 10 ** 5000 if spec["what"] == "huge-int" else _NoRepr()
+	key = build_key(spec["key"])
+	value = val if spec["key"][0] in ("int", "mask-list") else [val] * spec["count"]
+	before = snapshot(v)
+	o = call(v.__setitem__, key, value)
+	kind = before[1][0] if before[1] else object
+	compatible = kind is object or (spec["what"] == "huge-int" and kind in (int, float, complex))
+	chk.judged("assign-fault", ("unprintable-value", spec["what"], spec["key"][0], getattr(kind, "__name__", str(kind))))
+	if compatible:
+		if not o.ok:
+			chk.fail("a compatible value is assigned", f"assign/raises/unprintable-compatible/{spec['what']}/{type(o.exc).__name__}", f"column kind {kind!r}, key {spec['key']!r}: raised {type(o.exc).__name__}")
+		return
+	if o.ok:
+		chk.fail("an incompatible value is rejected", f"assign/accepted-incompatible/unprintable/{spec['what']}", f"column kind {kind!r}, key {spec['key']!r}: accepted")
+		return
+	if not isinstance(o.exc, SerifTypeError):
+		chk.fail("an incompatible value is rejected with SerifTypeError", f"assign/wrong-exception/unprintable-{spec['what']}/{type(o.exc).__name__}", f"column kind {kind!r}, key {spec['key']!r}: raised {type(o.exc).__name__} instead of SerifTypeError")
+		return
+	if snapshot(v) != before:
+		chk.fail("an assignment that fails for any reason leaves the vector exactly as it was", f"assign/not-atomic/unprintable-{spec['what']}", f"column kind {kind!r}, key {spec['key']!r}")
+
 
 def run_sequence(chk, spec):
 	"""several VALID writes in a row on one table (cell / row / column / region from another table / whole-slice from a vector) and on the tables
@@ -851,7 +884,7 @@ def run_mask_reuse(chk, spec):
 			return
 
 
-RUNNERS = {"cross_kind_equal": run_cross_kind_equal, "mask_reuse": run_mask_reuse, "own_source": run_own_source, "badmask": run_badmask, "selfmask": run_selfmask, "sequence": run_sequence, "overflow": run_overflow, "assign": run_assign, "iterfault": run_iterfault, "table_assign": run_table_assign, "rename": run_rename, "rename_fault": run_rename_fault, "shared_refusal": run_shared_refusal}
+RUNNERS = {"cross_kind_equal": run_cross_kind_equal, "mask_reuse": run_mask_reuse, "own_source": run_own_source, "badmask": run_badmask, "selfmask": run_selfmask, "sequence": run_sequence, "overflow": run_overflow, "assign": run_assign, "iterfault": run_iterfault, "table_assign": run_table_assign, "rename": run_rename, "rename_fault": run_rename_fault, "shared_refusal": run_shared_refusal, "unprintable_value": run_unprintable_value}
 
 COLKINDS = ["bool", "int", "float", "complex", "str", "date", "datetime", "object", "bytes"]
 
@@ -993,6 +1026,10 @@ def run(chk):
 			continue
 		for keyspec in (("int", 0), ("slice", (0, 1, None)), ("idx-list", [0]), ("mask-list", [True] + [False] * (len(vals) - 1))):
 			chk.case("assign", {"values": vals, "key": keyspec, "vform": "scalar" if keyspec[0] in ("int", "mask-list") else "list", "value": wide if keyspec[0] in ("int", "mask-list") else [wide]}, "assign-promote-mixed")
+	for vals in (["a", "b", "c"], [1, 2, 3], [1.5, 2.5, 3.5], [True, False, True], [date(2020, 1, 1), date(2020, 1, 2), date(2020, 1, 3)], [b"x", b"y", b"z"], [1, "a", 2.5]):
+		for what in ("huge-int", "no-repr"):
+			for keyspec, count in ((("int", 0), 1), (("slice", (0, 2, None)), 2), (("idx-list", [2, 0]), 2), (("mask-list", [False, True, False]), 1)):
+				chk.case("unprintable_value", {"values": vals, "what": what, "key": keyspec, "count": count}, "assign-unprintable-value")
 	# an index list / tuple whose LATER element is not an int (the first one is fine), with a value that would promote the column or make it nullable
 	for vals, wide in (([1, 2, 3], 2.5), ([1.5, 2.5, 3.5], 1j), ([date(2020, 1, 1), date(2020, 1, 2), date(2020, 1, 3)], datetime(2020, 1, 1, 5)), (["p", "q", "r"], None)):
 		for badkey in (("idx-list", [0, 1.5]), ("idx-tuple", (1, 2.0)), ("idx-list", [0, None]), ("idx-list", [0, "1"]), ("idx-list", [2, 1, 0.0]), ("idx-tuple", (0, 1j))):
